@@ -48,7 +48,7 @@ def run(ctx):
             vals = U.c13_values(rng, prog)
             core = prog["subs"][0]["sub"] if prog["k"] == "Struct" and prog["subs"][0].get("name") == "x" else prog
             extra = []
-            if core["k"] in ("Const", "OneOf", "NoneOf", "Enum", "FlagsEnum", "Mapping"):
+            if core["k"] in ("Const", "OneOf", "NoneOf", "Enum", "FlagsEnum", "Mapping", "ExprValidator"):
                 extra = list(range(-2, 258)) if (i % 4 == 0 or not quick) else rng.sample(range(-2, 258), 30)
                 extra += [None, "", "one", "two | one", " a|b ", "a|zz", "a|a", "b|a|b", "a|c|b", "c|a", {"a": True, "_p": 1}, {"a": False}, b"A", b"MZ\x00", 0.0, True, False, []]
             if core["k"] == "Enum":
